@@ -123,9 +123,9 @@ func init() {
 		},
 		NumCases: func(tier string) int {
 			if tier == "thorough" {
-				return 200000
+				return 600000
 			}
-			return 24000
+			return 16000
 		},
 		Run: c13Run,
 		Floors: func(m *Merged, tier string) []string {
